@@ -1406,7 +1406,7 @@ Theorem roundtrip_of_render_lex src doc ps :
 Proof.
   intros Hwf Hp Hlex.
   assert (Hprint : print repaired src doc = Some (text_of ps)) by (unfold print; now rewrite Hp).
-  set (e := {| dv := impl_flags; cx := mk_ctx (byte_len (text_of ps)) (items_of_pieces ps);
+  set (e := {| dv := impl_flags; cx := mk_ctx (text_of ps) (items_of_pieces ps);
                fuel := S (length (items_of_pieces ps)) |}).
   destruct (print_tokens_roundtrip_parser src doc ps e Hwf Hp eq_refl (Nat.lt_succ_diag_r _)) as (doc' & Hparse & Hsn & Hid).
   assert (Hre : reparse (text_of ps) = POk doc' []).
